@@ -8,6 +8,7 @@ import (
 	"math"
 	"sort"
 	"strings"
+	"sync"
 
 	"golang.org/x/tools/go/ssa"
 )
@@ -48,6 +49,7 @@ type State struct {
 	heaps map[string]Term
 	hwm   Term
 	defers []*ssa.Defer // defers registered on every path to here (dominating defers)
+	splits []Term
 }
 
 func (s *State) clone() *State {
@@ -59,6 +61,7 @@ func (s *State) clone() *State {
 		n.heaps[k] = v
 	}
 	n.defers = append([]*ssa.Defer(nil), s.defers...)
+	n.splits = s.splits
 	return n
 }
 
@@ -74,9 +77,17 @@ type Obl struct {
 	Pos    string
 	Func   string
 	Extra  []string // extra assertions only for this obligation
+	Budget int      // solver timeout override in seconds (0 = tier default)
+	Blk    int      // block of the obligation (-1: whole function)
+	Splits []Term   // reach conditions of the incoming edges of the last merge (for case splitting)
 }
 
 func (o *Obl) Group() string { return o.Func + "/" + o.Class + "/" + o.Anchor }
+
+type guardedMap struct {
+	heap string
+	obj  Term
+}
 
 type loopInfo struct {
 	header  *ssa.BasicBlock
@@ -118,8 +129,19 @@ type Enc struct {
 	paramTypes map[string]types.Type
 	assumedGlobalInv bool
 	curInstr  ssa.Instruction
+	curSplits []Term
+	bodyBlk   []int          // block in which each body line was emitted (-1: global)
+	curBlk    int
+	anc       map[int]map[int]bool // anc[b]: blocks that can reach b (back edges removed), including b
 	trace     *traceState
 	subTags   int
+	finalOnce sync.Once
+	lateText  string
+	declText  string
+	concMode  bool
+	sectionCount int
+	acqStates map[int]*State
+	guardedMaps map[ssa.Value]guardedMap
 	protected bool // a deferred recoverFunc is active (function-level)
 	panicStates []*State
 }
@@ -128,7 +150,7 @@ func newEnc(P *Prog, fn *ssa.Function) *Enc {
 	e := &Enc{P: P, fn: fn, key: funcKey(fn), decls: newDecls(), compSort: map[string]string{}, strConsts: map[string]Term{},
 		tidsUsed: map[int]bool{}, ifacesUsed: map[string]*types.Interface{}, vals: map[ssa.Value]Val{}, private: map[*ssa.Alloc]bool{}, allocByName: map[string][]*ssa.Alloc{},
 		oblCount: map[string]int{}, loops: map[*ssa.BasicBlock]*loopInfo{}, edgeOut: map[[2]int]*State{},
-		paramVals: map[string]Val{}, paramTypes: map[string]types.Type{}}
+		paramVals: map[string]Val{}, paramTypes: map[string]types.Type{}, curBlk: -1}
 	e.c = P.Spec.Contracts[e.key]
 	if fn.Pkg != nil {
 		e.pkg = fn.Pkg.Pkg
@@ -160,6 +182,7 @@ func (e *Enc) assert(t Term) {
 		return
 	}
 	e.body = append(e.body, "(assert "+t.S+")")
+	e.bodyBlk = append(e.bodyBlk, e.curBlk)
 }
 
 func (e *Enc) assume(reach, fact Term) { e.assert(Imp(reach, fact)) }
@@ -197,7 +220,7 @@ func (e *Enc) oblige(class, anchor string, props []string, reach, goal Term, des
 	if p == token.NoPos && e.curInstr != nil {
 		p = e.curInstr.Pos()
 	}
-	o := &Obl{Name: fmt.Sprintf("%s/%s#%d", e.key, g, k), Class: class, Anchor: anchor, Props: props, Prefix: len(e.body), Reach: reach, Goal: goal, Desc: desc, Pos: e.pos(p), Func: e.key}
+	o := &Obl{Name: fmt.Sprintf("%s/%s#%d", e.key, g, k), Class: class, Anchor: anchor, Props: props, Prefix: len(e.body), Reach: reach, Goal: goal, Desc: desc, Pos: e.pos(p), Func: e.key, Splits: e.curSplits, Blk: e.curBlk}
 	e.obls = append(e.obls, o)
 	// after the check, execution continues only if it held
 	e.assume(reach, goal)
